@@ -21,9 +21,10 @@ MarshalEntries == {"cbe-marshal", "cbe-marshal-doc", "cte-marshal", "cte-marshal
 
 (* input classes; the harness owns the members of each class *)
 InputClasses == {"empty", "one-byte", "header-only", "valid-cbe", "valid-cte", "truncated-cbe", "truncated-cte", "mutated-cbe", "mutated-cte",
-                 "machine-cbe", "deep-cbe", "deep-cte", "huge-length", "random", "wrong-format", "many-tokens"}
+                 "machine-cbe", "deep-cbe", "deep-cte", "huge-length", "random", "wrong-format", "many-tokens",
+                 "for-template"}   \* documents shaped like the struct templates: matching, mistyped, with forward/backward/cyclic references
 Templates == {"nil", "int", "string", "struct", "slice", "map", "pointer", "interface-slice", "array", "chan", "func", "complex",
-              "unsafe-pointer", "struct-with-chan", "time", "big-int", "nested-struct"}
+              "unsafe-pointer", "struct-with-chan", "time", "big-int", "nested-struct", "self-ref-with-chan"}
 Receivers == {"rules", "bare"}
 ValueClasses == {"scalars", "struct", "chan", "func", "complex", "unsafe-pointer", "struct-with-func", "slice-of-chan", "map-with-chan-value",
                  "nil-pointer", "nil-interface", "nil-map", "pointer-cycle", "map-cycle", "slice-cycle", "deep-nesting", "big-slice", "invalid-utf8-string",
